@@ -27,7 +27,7 @@ STUBBED_NAMES = hashmodel.STUBBED_NAMES
 ASSUMPTIONS = ["ideal hash: SHA-256 collision-free and GF(2)-independent on the preimages involved", "struct model", "clock stub; message f-strings blanked"]
 OUTSIDE = ["*args / **kwargs / keyword-only parameters", "functions with more than 3 parameters", "argument values other than 32-bit ints, bools, None, short ASCII strings"]
 FUNCTIONS_ENCODED = ["dds.fun_args.get_arg_ctx", "dds.fun_args.get_arg_ctx_ast", "dds.fun_args.dds_hash", "dds.introspect._build_return_sig", "dds.introspect.InspectFunction.inspect_call", "dds._api._eval_new_ctx"]
-BOUNDS = {"quick": {"functions": ["h1(x)", "g2(a, b)", "g3(x, y=5, z='k')", "gf(x, y=0, z=None)"], "values": "symbolic 32-bit ints / bool / None / ASCII str <= 1", "literals in source": [s for s, _v in LITERALS]}}
+BOUNDS = {"quick": {"functions": ["h1(x)", "g2(a, b)", "g3(x, y=5, z='k')", "gf(x, y=0, z=None)"], "values": "symbolic 32-bit ints / bool / None / ASCII str <= 1 / finite floats (against the float literal)", "literals in source": [s for s, _v in LITERALS]}}
 BOUNDS["thorough"] = BOUNDS["quick"]
 LAST_DETAIL = [""]
 M = "tq.m1"
@@ -62,6 +62,8 @@ def _val(kind, a, name):
         return a[name + "_b"]
     if kind == "none":
         return None
+    if kind == "float":
+        return a[name + "_f"]
     return a[name + "_s"]
 
 
@@ -148,7 +150,7 @@ def src_impl(a):
         v = _val(sel["vkind"], a, "v")
         s_src = _sig(w, None, root="lit_%d" % k)
         s_dir = _sig(w, "h1", (v,))
-        equal_values = (v == lit) and ((v is None) == (lit is None)) and (isinstance(v, str) == isinstance(lit, str))
+        equal_values = (v == lit) and ((v is None) == (lit is None)) and (isinstance(v, str) == isinstance(lit, str)) and (isinstance(v, float) == isinstance(lit, float))
         ok = not isinstance(s_src, tuple) and not isinstance(s_dir, tuple) and ((s_src == s_dir) == bool(equal_values))
         if not ok:
             LAST_DETAIL[0] = "literal %s in source vs direct value %r: signatures %s / %s" % (LITERALS[k][0], v, str(s_src)[:10], str(s_dir)[:10])
@@ -177,6 +179,9 @@ def make_fn(fn, sel, tag):
             pres.append("-2**31 <= %s_i < 2**31" % name)
         elif kind == "bool":
             params.append((name + "_b", "bool"))
+        elif kind == "float":
+            params.append((name + "_f", "float"))
+            pres.append("%s_f == %s_f and -1e9 < %s_f < 1e9" % (name, name, name))
         elif kind == "str":
             params.append((name + "_s", "str"))
             pres.append("len(%s_s) <= 1 and %s_s.isascii()" % (name, name))
@@ -215,10 +220,12 @@ def queries(tier):
     qs.append({"id": "distinct.g3", "fn": "distinct", "sel": {"fn": "g3"}, "timeout": 600})
     qs.append({"id": "src.spellings", "fn": "src", "sel": {"group": "spellings"}, "timeout": 400})
     for k, (src, v) in enumerate(LITERALS):
-        kind = "none" if v is None else ("bool" if isinstance(v, bool) else ("int" if isinstance(v, int) else ("str" if isinstance(v, str) else None)))
+        kind = "none" if v is None else ("bool" if isinstance(v, bool) else ("int" if isinstance(v, int) else ("str" if isinstance(v, str) else ("float" if isinstance(v, float) else None))))
         if kind is None:
             continue
         qs.append({"id": "src.lit%d.%s" % (k, kind), "fn": "src", "sel": {"group": "literal", "lit": k, "vkind": kind}, "timeout": 300})
+        if kind == "float":
+            qs.append({"id": "src.lit%d.int" % k, "fn": "src", "sel": {"group": "literal", "lit": k, "vkind": "int"}, "timeout": 300})
         if kind in ("int", "bool"):
             other = "bool" if kind == "int" else "int"
             qs.append({"id": "src.lit%d.%s" % (k, other), "fn": "src", "sel": {"group": "literal", "lit": k, "vkind": other}, "timeout": 300})
